@@ -131,7 +131,16 @@ func (g *g4) intObj() (tokObj, spelled) {
 			sign = "+"
 		}
 		g.f("signed / zero-padded integer")
-		return o, spelled{text: []byte(sign + strings.Repeat("0", g.rng.IntN(4)) + s)}
+		pad := g.rng.IntN(4)
+		if g.rng.IntN(6) == 0 {
+			// a fixed-width field: the spelling is longer than any integer's shortest one
+			pad = []int{16, 19, 20, 21, 22, 30, 40, 64}[g.rng.IntN(8)] - len(s)
+			if pad < 0 {
+				pad = 0
+			}
+			g.f("integer padded with zeros to 16-64 digits")
+		}
+		return o, spelled{text: []byte(sign + strings.Repeat("0", pad) + s)}
 	}
 	return o, spelled{text: []byte(strconv.FormatInt(v, 10))}
 }
@@ -850,6 +859,25 @@ func runC04(r *rt.Runner) {
 			}
 		}
 	})
+	// a continuation line that begins 0-3 bytes in front of every multiple of
+	// the scanner's 512-byte buffer (and of 4096): the three bytes `%%+` may
+	// straddle a refill of the buffer
+	r.Case("continuation-at-buffer-boundary", func(c *rt.C) {
+		for _, block := range []int{512, 1024, 4096} {
+			for off := -3; off <= 2; off++ {
+				for _, le := range []string{"\n", "\r", "\r\n"} {
+					head := "%%Title: first" + le
+					pos := block + off - len(head)
+					text := "%" + strings.Repeat("x", pos-2-len(le)) + le + head + "%%+ second" + le + "{ 1 2 }"
+					// the comment in front is an ordinary one (a single %), so the list holds one entry
+					runTokenCase(c, []byte(text), []tokObj{{kind: "int", i: 1}, {kind: "int", i: 2}}, []dscLine{{"Title", "first second"}}, fmt.Sprintf("continuation-at|%d%+d|%q", block, off, le))
+					c.Eval()
+					c.Count("continuation lines placed at buffer boundaries")
+				}
+			}
+		}
+		c.Nontrivial([]byte("continuation-boundary"), nil)
+	})
 	// serialisation: String.PS and Name.PS read back
 	nSer := r.N(2000, 20000)
 	for k := 0; k < nSer; k++ {
@@ -857,6 +885,17 @@ func runC04(r *rt.Runner) {
 			g := &g4{rng: c.Rand(), feat: map[string]bool{}}
 			for j := 0; j < 50; j++ {
 				val := g.strBytes()
+				if j%10 == 9 {
+					// long strings made of bytes that need escapes, so that any line
+					// breaking or chunking of the literal meets an escape sequence
+					n := 200 + g.rng.IntN(1500)
+					val = make([]byte, n)
+					for i := range val {
+						val[i] = "\\()\r\n\t\b\f\x00\x7f\xffab("[g.rng.IntN(14)]
+					}
+					// keep the parentheses balanced or not, as they come: PS() has to cope
+					g.f("string of 200-1700 bytes that need escapes")
+				}
 				ps := postscript.String(val).PS()
 				runTokenCase(c, []byte("{"+ps+"}"), []tokObj{{kind: "str", s: val}}, nil, "serialise-string")
 				nb := g.nameBytes()
